@@ -1,6 +1,7 @@
 package jsonapi
 
 import (
+	"reflect"
 	"sort"
 	"strings"
 	"time"
@@ -108,6 +109,17 @@ func (s sortedResources) Less(i, j int) bool {
 
 		v := s.col[i].Get(r)
 		v2 := s.col[j].Get(r)
+
+		// A Wrapper returns an untyped nil for a nil pointer, which
+		// none of the cases below expects. nil comes first.
+		if v == nil || v2 == nil {
+			nil1, nil2 := isNil(v), isNil(v2)
+			if nil1 && nil2 {
+				continue
+			}
+
+			return nil1 != inverse
+		}
 
 		// Here we return true if v < v2.
 		// The "!= inverse" part acts as a XOR operation so that
@@ -444,4 +456,15 @@ func (s sortedResources) Less(i, j int) bool {
 	}
 
 	return false
+}
+
+// isNil reports whether v is nil or a nil pointer.
+func isNil(v any) bool {
+	if v == nil {
+		return true
+	}
+
+	rv := reflect.ValueOf(v)
+
+	return rv.Kind() == reflect.Ptr && rv.IsNil()
 }
